@@ -7,6 +7,7 @@ import RsModel.Lemmas.LinesTree
 import RsModel.Lemmas.ReplaceOrig
 import RsModel.Lemmas.WarmStrict
 import RsModel.Lemmas.ProvWarm
+import RsModel.Lemmas.WarmLinesF
 /-!
 # C11 — produced source maps and chunk streams are well-formed
 -/
@@ -214,44 +215,6 @@ theorem c11_every_history_map_strict (s : Src) (hk : s.NoCR) (hn : s.ids.Nodup) 
 
 /-! ## the map clause, columns = false -/
 
-theorem keptLines_facts : ∀ (ms : List Mapping) (e : LEncSt), linesOK e.lastWritten ms →
-    (∀ x ∈ keptLines e ms, x.gc = 0 ∧ e.lastWritten < x.gl ∧ ∃ m ∈ ms, m.orig.isSome = true ∧ x.gl = m.gl)
-    ∧ (keptLines e ms).Pairwise (fun a b => a.gl < b.gl) := by
-  intro ms
-  induction ms with
-  | nil => intro e _; exact ⟨fun x hx => by simp [keptLines] at hx, by simp [keptLines]⟩
-  | cons m ms ih =>
-    intro e hl
-    obtain ⟨h1, h2⟩ := hl
-    have hrest : linesOK e.lastWritten ms := linesOK_mono h1 ms h2
-    simp only [keptLines]
-    cases ho : m.orig with
-    | none =>
-      simp only []
-      obtain ⟨a, b⟩ := ih e hrest
-      exact ⟨fun x hx => by obtain ⟨x1, x2, m', hm', x3⟩ := a x hx; exact ⟨x1, x2, m', List.mem_cons_of_mem _ hm', x3⟩, b⟩
-    | some o =>
-      simp only []
-      by_cases heq : (e.lastWritten == m.gl) = true
-      · simp only [heq, if_true]
-        obtain ⟨a, b⟩ := ih e hrest
-        exact ⟨fun x hx => by obtain ⟨x1, x2, m', hm', x3⟩ := a x hx; exact ⟨x1, x2, m', List.mem_cons_of_mem _ hm', x3⟩, b⟩
-      · simp only [heq, Bool.false_eq_true, if_false]
-        have hne : e.lastWritten ≠ m.gl := by simpa using heq
-        have hlw : (lencStep e m).1.lastWritten = m.gl := by simp [lencStep, ho, heq]
-        obtain ⟨a, b⟩ := ih (lencStep e m).1 (by rw [hlw]; exact h2)
-        constructor
-        · intro x hx
-          rcases List.mem_cons.1 hx with rfl | hx
-          · exact ⟨rfl, by simp only; omega, m, by simp, by rw [ho]; rfl, rfl⟩
-          · obtain ⟨x1, x2, m', hm', x3⟩ := a x hx
-            rw [hlw] at x2
-            exact ⟨x1, by omega, m', List.mem_cons_of_mem _ hm', x3⟩
-        · refine List.Pairwise.cons (fun x hx => ?_) b
-          obtain ⟨_, x2, _⟩ := a x hx
-          rw [hlw] at x2
-          exact x2
-
 /-- **segments of `map()` with columns = false**: for every tree of the domain of C03 (lines variant, cold caches) the decoded
 segments of the SourceMap `get_map` returns stand on *strictly increasing generated lines* ≥ 1, each at column 0, each on a line on
 which the text-less stream delivers a mapped chunk — a line of `source()` (`c02_final`: that chunk stands at a position of
@@ -274,5 +237,40 @@ theorem c11_map_lines_strict (s : Src) (h : s.ModeHypL) (hn : s.ids.Nodup) (σ :
   obtain ⟨x1, x2, m, hm', x3, x4⟩ := a x hx
   have h0 : ({} : LEncSt).lastWritten = 0 := rfl
   exact ⟨x1, by omega, m, hm', x3, x4, finOK_ms s.src _ b7 m hm'⟩
+
+/-- **… and for every `get_map(columns = false)` of every call history**: on a tree with CachedSource nodes (none beneath a
+ReplaceSource), cold at the start, the map every `get_map(columns = false)` of any history returns has its decoded segments on
+strictly increasing generated lines ≥ 1, each at column 0, each on a line on which the text-less stream that built it delivers a
+mapped chunk at a position of `source()`.  `c10_every_history` ∘ `c11_map_lines_strict` on the cache-free tree and on the replay
+tree (which is again in the domain: `Src.warmFL`). -/
+theorem c11_every_history_map_lines_strict (s : Src) (hk : s.NoCR) (hn : s.ids.Nodup) (σ : Store) (hc : Cold σ s.ids)
+    (h : s.ModeHypL) (hs : s.SmallFL)
+    (hsmall1 : ∀ m ∈ chunkMs (s.strip.stream ⟨false, true⟩ []).1.evs, ∀ o, m.orig = some o → o.src < U31 ∧ o.line < U31)
+    (hsmall2 : ∀ m ∈ chunkMs ((s.warm ⟨false, true⟩).stream ⟨false, true⟩ []).1.evs, ∀ o, m.orig = some o → o.src < U31 ∧ o.line < U31)
+    (calls : List Opts) (k : Nat) (hcall : calls[k]? = some ⟨false, true⟩) :
+    ∃ r, (runCalls s calls σ).1[k]? = some r ∧ ∀ sm, mapOfEvs false r.evs = some sm →
+      (decode sm.mappings).Pairwise (fun a b => a.gl < b.gl)
+      ∧ ∀ x ∈ decode sm.mappings, x.gc = 0 ∧ 1 ≤ x.gl
+          ∧ ∃ m ∈ chunkMs r.evs, m.orig.isSome = true ∧ x.gl = m.gl ∧ IsPos s.src ⟨m.gl, m.gc⟩ := by
+  refine ⟨_, runCalls_results s hk hn σ hc calls k _ hcall, ?_⟩
+  intro sm hsm
+  unfold answerOf at hsm ⊢
+  have hck := Src.noCR_cachedOK s hk
+  split at hsm
+  · rename_i hmem
+    simp only [hmem, if_true]
+    obtain ⟨_, a2⟩ := Src.warmFL s h hck hs
+    have hwnc := Src.warm_nc s ⟨false, true⟩ hck
+    obtain ⟨hwn, _, _⟩ := nc_facts _ hwnc
+    have := c11_map_lines_strict (s.warm ⟨false, true⟩) a2 hwn [] (cold_nil _) true hsmall2 sm (by simp only [getMap]; exact hsm)
+    rw [Src.warm_src] at this
+    exact this
+  · rename_i hmem
+    simp only [hmem, if_false]
+    have hsn := Src.strip_nc s
+    obtain ⟨hn', _, _⟩ := nc_facts _ hsn
+    have := c11_map_lines_strict s.strip (Src.strip_modeHypL s h) hn' [] (cold_nil _) true hsmall1 sm (by simp only [getMap]; exact hsm)
+    rw [Src.strip_src] at this
+    exact this
 
 end Rs
